@@ -104,7 +104,7 @@ pub fn install_panic_hook() {
             let file = loc.0.clone();
             let in_harness = file.starts_with("/verif/") || file.contains("/verif/sim/") || (file.starts_with("cmhost/") || file.starts_with("simrt/") || file.starts_with("simgen/") || file.starts_with("simalloc/") || file.starts_with("src/"));
             // the output of the real generator, compiled from the build directory, is code under test
-            let generated = file.contains("/out/") && (file.ends_with("c07_bindings.rs") || file.rsplit('/').next().map(|f| f.starts_with("sig")).unwrap_or(false));
+            let generated = file.contains("/out/") && (file.ends_with("c07_bindings.rs") || file.ends_with("genpay_bindings.rs") || file.rsplit('/').next().map(|f| f.starts_with("sig")).unwrap_or(false));
             let in_harness = in_harness && !generated;
             let file = if generated { format!("generated bindings {}", file.rsplit('/').next().unwrap_or("")) } else { file };
             let short = match file.find("/crates/") {
